@@ -17,8 +17,8 @@ def sets(xs):
 
 def optsets():
     out = []
-    for m in range(16):
-        o = [c for i, c in enumerate("kctf") if m >> i & 1]
+    for m in range(32):
+        o = [c for i, c in enumerate("kctfv") if m >> i & 1]
         if not ("c" in o and "t" in o):
             out.append("{%s}" % ", ".join('"%s"' % c for c in o))
     return "{%s}" % ", ".join(out)
